@@ -357,6 +357,13 @@ class VTuple(V):
         return self._t
 
 
+class VPyList(VTuple):
+    """a python *list* of statically known length whose elements have no symbolic encoding (dict literals, heap
+    objects), e.g. `[entry]`.  Behaves like a tuple for len / indexing / iteration / truthiness; it reports itself as
+    `list` to isinstance, and every mutating method is `unsupported` (never silently wrong)."""
+    pylist = True
+
+
 class VRec(V):
     def __init__(self, fields, t):
         self.fields = dict(fields)
